@@ -61,10 +61,10 @@ class ScriptedSocket:
 
 def plan(tier):
     sh = [{'kind': 'calls'}, {'kind': 'cards'}]
-    n, per = (4, 1500) if tier == 'quick' else (6, 60000)
+    n, per = (4, 6000) if tier == 'quick' else (6, 60000)
     sh += [{'kind': 'hands', 'n': per} for _ in range(n)]
     sh += [{'kind': 'masks', 'n': per} for _ in range(2)]
-    n, per = (6, 800) if tier == 'quick' else (8, 40000)
+    n, per = (6, 4000) if tier == 'quick' else (8, 40000)
     sh += [{'kind': 'framing', 'n': per} for _ in range(n)]
     if tier == 'thorough':       # coverage-guided campaigns on the same tests (atheris), own seed and corpus each
         sh += [{'kind': 'fuzz', 'target': 'framing', 'runs': 100000} for _ in range(4)] + [{'kind': 'fuzz', 'target': 'hands', 'runs': 60000}, {'kind': 'fuzz', 'target': 'masks', 'runs': 60000}]
